@@ -572,6 +572,15 @@ def _delegations(ctx, m, meths):
         pa = [x.arg for x in ex.args.args]
         sp, ip = pa[0], pa[1] if len(pa) > 1 else 'items'
         rp = pa[2] if len(pa) > 2 else 'replace'
+        exd = [norm(x) for x in ex.args.defaults]
+        if len(pa) > 2 and exd and exd[-1] == 'True':
+            ctx.ob('C16.D5', 'MetadataObject.extend(items, replace=True): existing tags are overwritten by default', True,
+                   '%s:%d' % (FM, ex.lineno))
+        elif len(pa) > 2 and exd:
+            ctx.violation('C16.D5', '%s::MetadataObject.extend' % FM, 'replace=%s' % exd[-1],
+                          'meta.extend([("dis", "B")]) on metadata that already has dis raises KeyError instead of replacing '
+                          'the value in place', 'the default of `replace` in extend is %s, documented True' % exd[-1], file=FM,
+                          line=ex.lineno, engine='E9')
         loops = [x for x in walk_no_nested(ex) if isinstance(x, ast.For)]
         ok = False
         for lp in loops:
